@@ -16,6 +16,9 @@ CHECKS = {
  'C10': dict(tech=T + ' (Try_AST_Node::eval_internal/handle_exception) with abstract children that return or throw any of 6 exception kinds',
    text='For every shape of try/catch/finally (0-2 clauses, typed or not, finally or not) the real node code is executed symbolically with the body, handlers and finally block as abstract children: first matching clause runs once, finally exactly once on every path, an exception no clause accepts leaves as the very same object, a throw in a handler/finally is what leaves, scope depth is restored. Inductive step for the whole-program statement.',
    note='children/Param_Types::match are oracles; Boxed_Value construction/destruction cut; other nodes (Fun_Call, dispatch, engine wrappers) not yet covered'),
+ 'C12': dict(tech=T + ' (every callable bootstrap_stl.hpp registers for Vector: lambdas, detail::insert_at/erase_at, push_back) against a C array model',
+   text='Each registered Vector operation ([] const/mutable, front, back, pop_back, insert_at, erase_at, push_back_ref, clear, size, empty) is executed symbolically on an arbitrary valid vector of exactly K elements (with and without spare capacity, so the reallocation path runs) with arbitrary int arguments: std:: effect and result, or the documented exception with the container unchanged; container stays well formed; no access outside its storage.',
+   note='elements are control-block-free Boxed_Values; Map/string-find family/range views not covered yet; insert position enumerated (not symbolic) on the reallocation path'),
  'C16': dict(tech=T + ' (buildInt, Char_Parser, Id) plus z3 bit-vector search for FNV-1a collisions whose models are executed through the real Id()',
    text='Integer literal typing/value for all 64-bit values x 4 bases x all valid suffix spellings; escape decoding as an inductive step from an arbitrary decoder state (any literal length) plus all byte strings up to N against a reference C++ escape decoder; word literals recognised by exact spelling for all buffers up to N bytes and for the identifiers z3 finds to collide with each keyword hash.',
    note='strtol-family digit conversion is a trusted 12-line model; floating literal accuracy (parse_num) is declined; decoded literals <= 15 bytes (SSO string model)'),
